@@ -1244,4 +1244,663 @@ theorem run_ends (s : Proto) (is : List Inp) (h : Inv s) :
         omega
 
 
+/-! ### identities: attempts are never re-created, `terminated` is never taken back -/
+
+/-- the attempts are the same ones (each `Keeps`), or all gone -/
+def Same (s s' : Proto) : Prop := s.fresh ≤ s'.fresh ∧ (s'.atts = [] ∨ KeepsAll s.atts s'.atts)
+
+theorem Same.rfl' (s : Proto) : Same s s := ⟨Nat.le_refl _, Or.inr (KeepsAll.rfl' _)⟩
+
+theorem keepsAll_nil_left {l : List Attempt} (h : KeepsAll [] l) : l = [] := by
+  cases h; rfl
+
+theorem Same.trans' {s s1 s2 : Proto} (h1 : Same s s1) (h2 : Same s1 s2) : Same s s2 := by
+  refine ⟨Nat.le_trans h1.1 h2.1, ?_⟩
+  rcases h2.2 with h | h
+  · exact Or.inl h
+  · rcases h1.2 with h' | h'
+    · rw [h'] at h
+      exact Or.inl (keepsAll_nil_left h)
+    · exact Or.inr (h'.trans' h)
+
+theorem same_of_atts (s : Proto) (atts : List Attempt) (m : Bool) (e : Option Bool) (h : KeepsAll s.atts atts) :
+    Same s { s with atts := atts, hasMeta := m, ended := e } := ⟨Nat.le_refl _, Or.inr h⟩
+
+theorem cp_same (s : Proto) : Same s (checkPending s).1 := ⟨by rw [cp_fresh]; exact Nat.le_refl _, cp_keeps s⟩
+
+theorem markOne_keeps (atts : List Attempt) (a i : Nat) : KeepsAll atts (markOne atts a i) := by
+  unfold markOne
+  repeat' split
+  all_goals first
+    | exact KeepsAll.rfl' _
+    | exact (upd_keeps _ _ _ (markOwn_keeps _)).trans' (upd_keeps _ _ _ (markEnclosing_keeps _))
+    | exact upd_keeps _ _ _ (markOwn_keeps _)
+
+theorem seenAtts_keeps (s : Proto) (a : Nat) : KeepsAll s.atts (seenAtts s a) :=
+  upd_keeps _ _ _ (fun _ => ⟨rfl, rfl, id, id⟩)
+
+theorem marked_keeps (q : Quirks) (s : Proto) (a i : Nat) : KeepsAll s.atts (marked q s a i) := by
+  unfold marked
+  split
+  · exact (seenAtts_keeps s a).trans' (markOne_keeps _ _ _)
+  · exact (seenAtts_keeps s a).trans' (markUp_keeps _ _ _ _ _)
+
+theorem lookup_same (q : Quirks) (s : Proto) (a i : Nat) : Same s (lookup q s a i).2.1 := by
+  rcases lookup_cases q s a i with h | h | ⟨x, _, _, h⟩ | ⟨x, _, _, h⟩
+  · rw [h.1]; exact Same.rfl' s
+  · rw [h]; exact Same.rfl' s
+  · rw [h]
+    exact (same_of_atts s _ true s.ended (marked_keeps q s a i)).trans' (cp_same _)
+  · rw [h]
+    exact same_of_atts s _ true s.ended (seenAtts_keeps s a)
+
+theorem finish_same (s : Proto) (w : Walk) (h : KeepsAll s.atts w.atts) : Same s (finish s w).1 := by
+  unfold finish
+  simp only
+  split
+  · exact (same_of_atts s _ true _ h).trans' (cp_same _)
+  · exact same_of_atts s _ true _ h
+
+theorem continue_same (q : Quirks) (s : Proto) (a i : Nat) (k : Kont) : Same s (continue_ q s a i k).1 := by
+  cases k with
+  | goesOn => exact Same.rfl' s
+  | arm => exact ⟨Nat.le_refl _, Or.inr (upd_keeps _ _ _ (setSlot_keeps _ _))⟩
+  | caughtOn => exact ⟨Nat.le_refl _, Or.inr (upd_keeps _ _ _ (setSlot_keeps _ _))⟩
+  | done v ups => simp only [continue_]; exact finish_same _ _ (bub_keeps _ _ _ _ _ _)
+  | fail e hs => simp only [continue_]; exact finish_same _ _ (bub_keeps _ _ _ _ _ _)
+
+/-- one step: the same attempts (or none), or those and a newly launched one with a fresh id -/
+inductive Evolves (s s' : Proto) : Prop where
+  | same (h : Same s s')
+  | more (att : Attempt) (rest : List Attempt) (h : s'.atts = att :: rest) (hk : KeepsAll s.atts rest)
+      (hid : s.fresh ≤ att.id) (hf : att.id < s'.fresh)
+
+theorem step_evolves (q : Quirks) (s : Proto) (inp : Inp) : Evolves s (step q s inp).1 := by
+  cases inp with
+  | launch a n par k =>
+    simp only [step]
+    split
+    · exact .same (Same.rfl' s)
+    · rename_i hlt
+      cases par with
+      | none =>
+        simp only
+        split
+        · exact .same (Same.rfl' s)
+        · exact .more _ _ rfl (KeepsAll.rfl' _) (by simpa using hlt) (by simp)
+      | some pi =>
+        obtain ⟨p, i⟩ := pi
+        simp only
+        have hs := lookup_same q s p i
+        have hfr := lookup_fresh q s p i
+        rcases lookup_cases q s p i with h | h | ⟨x, _, _, h⟩ | ⟨x, _, _, h⟩
+        · rw [h.1]; exact .same (Same.rfl' s)
+        · rw [h]; exact .same (Same.rfl' s)
+        · rw [h] at hs ⊢; exact .same hs
+        · rw [h]
+          exact .more _ _ rfl (seenAtts_keeps s p) (by simpa using hlt) (by simp)
+  | event a i k =>
+    simp only [step, viaLookup]
+    have hs := lookup_same q s a i
+    rcases hl : lookup q s a i with ⟨v, s1, outs⟩
+    rw [hl] at hs
+    cases v with
+    | accept => exact .same (hs.trans' (continue_same q s1 a i k))
+    | dropped => exact .same hs
+    | lost => exact .same hs
+  | deferred a i k =>
+    simp only [step, viaLookup]
+    have hs := lookup_same q s a i
+    rcases hl : lookup q s a i with ⟨v, s1, outs⟩
+    rw [hl] at hs
+    cases v with
+    | accept => exact .same (hs.trans' (continue_same q s1 a i k))
+    | dropped => exact .same hs
+    | lost => exact .same hs
+  | reply a i k =>
+    simp only [step]
+    have h1 : Same s { s with atts := upd s.atts a (setSlot i Slot.disarm) } :=
+      ⟨Nat.le_refl _, Or.inr (upd_keeps _ _ _ (setSlot_keeps _ _))⟩
+    repeat' split
+    all_goals first
+      | exact .same (Same.rfl' s)
+      | exact .same (h1.trans' (finish_same _ _ (bub_keeps _ _ _ _ _ _)))
+      | exact .same (h1.trans' (continue_same _ _ _ _ _))
+  | echo a i =>
+    simp only [step]
+    repeat' split
+    all_goals first
+      | exact .same (Same.rfl' s)
+      | exact .same (finish_same _ _ (bub_keeps _ _ _ _ _ _))
+  | topEnd ok =>
+    simp only [step]
+    repeat' split
+    all_goals first
+      | exact .same (Same.rfl' s)
+      | exact .same ((same_of_atts s s.atts s.hasMeta (some ok) (KeepsAll.rfl' _)).trans' (cp_same _))
+      | exact .same (same_of_atts s s.atts s.hasMeta (some ok) (KeepsAll.rfl' _))
+  | backstop =>
+    simp only [step]
+    repeat' split
+    all_goals first
+      | exact .same (Same.rfl' s)
+      | exact .same ⟨Nat.le_refl _, Or.inl rfl⟩
+      | (refine .same (Same.trans' (s1 := { s with ended := some false, atts := s.atts.map (fun x => if x.seen then { x with terminated := true } else x) }) ⟨Nat.le_refl _, Or.inr ?_⟩ (cp_same _))
+         apply All2.map
+         intro x
+         split
+         · exact ⟨rfl, rfl, fun _ => rfl, id⟩
+         · exact Keeps.refl x)
+
+/-- attempt `a` will never hand over a result: its id is used up and its record, if it is still there, is terminated -/
+def Dead (s : Proto) (a : Nat) : Prop := a < s.fresh ∧ ∀ x ∈ s.atts, x.id = a → x.terminated = true
+
+theorem dead_keepsAll {l l' : List Attempt} (h : KeepsAll l l') (a : Nat) (hd : ∀ x ∈ l, x.id = a → x.terminated = true) :
+    ∀ x' ∈ l', x'.id = a → x'.terminated = true := by
+  intro x' hx' hid
+  obtain ⟨x, hx, hk⟩ := All2.mem_right h x' hx'
+  exact hk.2.2.1 (hd x hx (hk.1 ▸ hid))
+
+theorem dead_same {s s' : Proto} (h : Same s s') (a : Nat) (hd : Dead s a) : Dead s' a := by
+  refine ⟨Nat.lt_of_lt_of_le hd.1 h.1, ?_⟩
+  rcases h.2 with hh | hh
+  · rw [hh]; intro x hx; cases hx
+  · exact dead_keepsAll hh a hd.2
+
+theorem dead_evolves {s s' : Proto} (h : Evolves s s') (a : Nat) (hd : Dead s a) : Dead s' a := by
+  cases h with
+  | same h => exact dead_same h a hd
+  | more att rest h hk hid hf =>
+    refine ⟨by have := hd.1; omega, ?_⟩
+    rw [h]
+    intro x hx hxa
+    rcases List.mem_cons.mp hx with rfl | hx
+    · have := hd.1; omega
+    · exact dead_keepsAll hk a hd.2 x hx hxa
+
+/-- ids strictly decrease along the list (newest first) and are below `fresh` -/
+def WF (s : Proto) : Prop := (s.atts.map (·.id)).Pairwise (· > ·) ∧ ∀ x ∈ s.atts, x.id < s.fresh
+
+theorem wf_init : WF init := by simp [WF, init]
+
+theorem below_keepsAll {l l' : List Attempt} (h : KeepsAll l l') (n : Nat) (hb : ∀ x ∈ l, x.id < n) : ∀ x' ∈ l', x'.id < n := by
+  intro x' hx'
+  obtain ⟨x, hx, hk⟩ := All2.mem_right h x' hx'
+  rw [hk.1]; exact hb x hx
+
+theorem wf_evolves {s s' : Proto} (h : Evolves s s') (hw : WF s) : WF s' := by
+  cases h with
+  | same h =>
+    rcases h.2 with hh | hh
+    · simp [WF, hh]
+    · refine ⟨by rw [All2.ids hh]; exact hw.1, ?_⟩
+      intro x' hx'
+      exact Nat.lt_of_lt_of_le (below_keepsAll hh _ hw.2 x' hx') h.1
+  | more att rest h hk hid hf =>
+    refine ⟨?_, ?_⟩
+    · rw [h, List.map_cons, List.pairwise_cons, All2.ids hk]
+      refine ⟨?_, hw.1⟩
+      intro b hb
+      obtain ⟨x, hx, rfl⟩ := List.mem_map.mp hb
+      have := hw.2 x hx
+      omega
+    · rw [h]
+      intro x hx
+      rcases List.mem_cons.mp hx with rfl | hx
+      · exact hf
+      · have := below_keepsAll hk _ hw.2 x hx
+        omega
+
+theorem run_wf (q : Quirks) (s : Proto) (is : List Inp) (h : WF s) : WF (run q s is).1 := by
+  induction is generalizing s with
+  | nil => exact h
+  | cons i is ih => simp only [run]; exact ih _ (wf_evolves (step_evolves q s i) h)
+
+theorem run_dead (q : Quirks) (s : Proto) (is : List Inp) (a : Nat) (h : Dead s a) : Dead (run q s is).1 a := by
+  induction is generalizing s with
+  | nil => exact h
+  | cons i is ih => simp only [run]; exact ih _ (dead_evolves (step_evolves q s i) a h)
+
+
+/-- what an output of the walk says about the attempts it started from -/
+def OutOK (atts : List Attempt) (refail : Bool) : Out → Prop
+  | .succeed a _ => ∃ x ∈ atts, x.id = a ∧ x.terminated = false
+  | .failAttempt a _ => refail = false → ∃ x ∈ atts, x.id = a ∧ x.terminated = false
+  | .aborted a => ∃ x ∈ atts, x.id = a ∧ x.terminated = false
+  | _ => True
+
+theorem OutOK.mono (x : Attempt) (rest : List Attempt) (rf : Bool) (o : Out) (h : OutOK rest rf o) : OutOK (x :: rest) rf o := by
+  cases o <;> simp only [OutOK] at h ⊢
+  · obtain ⟨y, hy, h1, h2⟩ := h; exact ⟨y, List.mem_cons_of_mem _ hy, h1, h2⟩
+  · intro hr; obtain ⟨y, hy, h1, h2⟩ := h hr; exact ⟨y, List.mem_cons_of_mem _ hy, h1, h2⟩
+  · obtain ⟨y, hy, h1, h2⟩ := h; exact ⟨y, List.mem_cons_of_mem _ hy, h1, h2⟩
+
+theorem bub_outOK (q : Quirks) (e : Bool) : ∀ atts a i r, ∀ o ∈ (bubble q e atts a i r).outs, OutOK atts q.refail o := by
+  intro atts
+  induction atts with
+  | nil => intro a i r o ho; simp [bubble] at ho; subst ho; simp [OutOK]
+  | cons x rest ih =>
+    intro a i r
+    have mono : ∀ b j r', ∀ o ∈ (bubble q e rest b j r').outs, OutOK (x :: rest) q.refail o :=
+      fun b j r' o ho => OutOK.mono _ _ _ _ (ih b j r' o ho)
+    simp only [bubble]
+    repeat' split
+    all_goals (simp only [Walk.under, List.forall_mem_append, List.forall_mem_cons, List.nil_append])
+    all_goals (repeat' apply And.intro)
+    all_goals first
+      | exact mono _ _ _
+      | (intro o ho; cases ho)
+      | (simp only [OutOK]; done)
+      | (have hid : x.id = a := by simpa using ‹(x.id == a) = true›
+         simp only [OutOK]
+         first
+           | exact ⟨x, List.mem_cons_self, hid, by simp_all⟩
+           | (intro hr; exact ⟨x, List.mem_cons_self, hid, by simp_all⟩))
+
+/-- what a failure output of the walk says about the attempts it leaves -/
+def AfterOK (atts : List Attempt) : Out → Prop
+  | .failAttempt a _ => ∃ x ∈ atts, x.id = a ∧ x.terminated = true
+  | .aborted a => ∃ x ∈ atts, x.id = a ∧ x.terminated = true
+  | _ => True
+
+theorem AfterOK.mono (x : Attempt) (rest : List Attempt) (o : Out) (h : AfterOK rest o) : AfterOK (x :: rest) o := by
+  cases o <;> simp only [AfterOK] at h ⊢
+  · obtain ⟨y, hy, h1, h2⟩ := h; exact ⟨y, List.mem_cons_of_mem _ hy, h1, h2⟩
+  · obtain ⟨y, hy, h1, h2⟩ := h; exact ⟨y, List.mem_cons_of_mem _ hy, h1, h2⟩
+
+theorem bub_afterOK (q : Quirks) (e : Bool) : ∀ atts a i r, ∀ o ∈ (bubble q e atts a i r).outs,
+    AfterOK (bubble q e atts a i r).atts o := by
+  intro atts
+  induction atts with
+  | nil => intro a i r o ho; simp [bubble] at ho; subst ho; simp [AfterOK]
+  | cons x rest ih =>
+    intro a i r
+    have mono : ∀ (y : Attempt) b j r', ∀ o ∈ (bubble q e rest b j r').outs, AfterOK (y :: (bubble q e rest b j r').atts) o :=
+      fun y b j r' o ho => AfterOK.mono _ _ _ (ih b j r' o ho)
+    simp only [bubble]
+    repeat' split
+    all_goals (simp only [Walk.under, List.forall_mem_append, List.forall_mem_cons, List.nil_append])
+    all_goals (repeat' apply And.intro)
+    all_goals first
+      | exact mono _ _ _ _
+      | (intro o ho; cases ho)
+      | (simp only [AfterOK]; done)
+      | (have hid : x.id = a := by simpa using ‹(x.id == a) = true›
+         simp only [AfterOK]
+         exact ⟨_, List.mem_cons_self, hid, rfl⟩)
+
+/-- a result reports no failure -/
+theorem bub_done_nofail (q : Quirks) (e : Bool) : ∀ atts a i v ups, ∀ b e', Out.failAttempt b e' ∉ (bubble q e atts a i (.done v ups)).outs := by
+  intro atts
+  induction atts with
+  | nil => intro a i v ups b e' ho; simp [bubble] at ho
+  | cons x rest ih =>
+    intro a i v ups b e'
+    simp only [bubble]
+    repeat' split
+    all_goals (simp only [Walk.under, List.mem_append, List.mem_cons, List.not_mem_nil, or_false, List.nil_append])
+    all_goals first
+      | exact ih _ _ _ _ _ _
+      | (intro ho; cases ho; done)
+      | (intro ho
+         rcases ho with ho | ho
+         · cases ho
+         · first | cases ho | exact ih _ _ _ _ _ _ ho)
+
+/-- every failure the walk of a failed branch reports carries that branch's error -/
+theorem bub_fail_error (q : Quirks) (e : Bool) : ∀ atts a i e0 hs, ∀ b e', Out.failAttempt b e' ∈ (bubble q e atts a i (.fail e0 hs)).outs →
+    e' = e0 := by
+  intro atts
+  induction atts with
+  | nil => intro a i e0 hs b e' ho; simp [bubble] at ho
+  | cons x rest ih =>
+    intro a i e0 hs b e'
+    simp only [bubble]
+    repeat' split
+    all_goals (simp only [Walk.under, List.mem_append, List.mem_cons, List.not_mem_nil, or_false, List.nil_append])
+    all_goals first
+      | exact ih _ _ _ _ _ _
+      | (intro ho; cases ho; done)
+      | (intro ho; injection ho with h1 h2; exact h2)
+      | (intro ho
+         rcases ho with ho | ho
+         · first | (cases ho; done) | (cases ho; rfl) | (injection ho with h1 h2; exact h2)
+         · first | (cases ho; done) | exact ih _ _ _ _ _ _ ho)
+
+
+/-- outputs that are not the outcome of an attempt -/
+def Out.simple : Out → Bool
+  | .succeed _ _ | .failAttempt _ _ | .aborted _ | .retry _ _ | .caughtTo _ => false
+  | _ => true
+
+theorem cancelsOf_simple (x : Attempt) : ∀ o ∈ cancelsOf x, o.simple = true := by
+  intro o ho
+  unfold cancelsOf at ho
+  rw [List.mem_filterMap] at ho
+  obtain ⟨i, _, hi⟩ := ho
+  split at hi
+  · split at hi
+    · cases hi; rfl
+    · cases hi
+  · cases hi
+
+theorem cp_simple (s : Proto) : ∀ o ∈ (checkPending s).2, o.simple = true := by
+  intro o ho
+  unfold checkPending at ho
+  simp only at ho
+  have hc : ∀ o ∈ (s.atts.filter (visited (s.atts.any fun x => x.seen && x.terminated) s.ended.isSome)).flatMap cancelsOf,
+      o.simple = true := by
+    intro o ho
+    obtain ⟨x, _, hx⟩ := List.mem_flatMap.mp ho
+    exact cancelsOf_simple x o hx
+  split at ho
+  · rcases List.mem_append.mp ho with h | h
+    · exact hc o h
+    · simp at h; subst h; rfl
+  · exact hc o ho
+
+theorem lookup_simple (q : Quirks) (s : Proto) (a i : Nat) : ∀ o ∈ (lookup q s a i).2.2, o.simple = true := by
+  intro o ho
+  rcases lookup_cases q s a i with h | h | ⟨x, _, _, h⟩ | ⟨x, _, _, h⟩
+  · rw [h.1] at ho; simp at ho; subst ho; rfl
+  · rw [h] at ho; simp at ho; subst ho; rfl
+  · rw [h] at ho
+    simp only [List.mem_cons] at ho
+    rcases ho with rfl | ho
+    · rfl
+    · exact cp_simple _ o ho
+  · rw [h] at ho; simp at ho
+
+theorem finish_mem (s : Proto) (w : Walk) : ∀ o ∈ (finish s w).2, o ∈ w.outs ∨ o.simple = true := by
+  intro o ho
+  unfold finish at ho
+  simp only at ho
+  split at ho
+  · rcases List.mem_append.mp ho with h | h
+    · exact Or.inl h
+    · exact Or.inr (cp_simple _ o h)
+  · exact Or.inl ho
+
+/-- the outcome outputs of a step come from one walk over (a `Keeps` variant of) the step's attempts, which also
+gives the state after the step -/
+def FromWalk (q : Quirks) (s : Proto) (res : Proto × List Out) : Prop :=
+  ∃ s1 b i r, KeepsAll s.atts s1.atts ∧ s1.fresh = s.fresh ∧
+    res.1 = (finish s1 (bubble q s1.ended.isSome s1.atts b i r)).1 ∧
+    ∀ o ∈ res.2, o.simple = true ∨ o ∈ (bubble q s1.ended.isSome s1.atts b i r).outs
+
+theorem continue_walk (q : Quirks) (s0 s : Proto) (a i : Nat) (k : Kont) (hk : KeepsAll s0.atts s.atts) (hf : s.fresh = s0.fresh) :
+    (∀ o ∈ (continue_ q s a i k).2, o.simple = true) ∨ FromWalk q s0 (continue_ q s a i k) := by
+  cases k with
+  | goesOn => left; intro o ho; simp [continue_] at ho; subst ho; rfl
+  | arm => left; intro o ho; simp [continue_] at ho; subst ho; rfl
+  | caughtOn => left; intro o ho; simp [continue_] at ho; subst ho; rfl
+  | done v ups =>
+    right
+    refine ⟨s, a, i, .done v ups, hk, hf, rfl, ?_⟩
+    intro o ho
+    simp only [continue_, List.mem_cons] at ho
+    rcases ho with rfl | ho
+    · exact Or.inl rfl
+    · rcases finish_mem _ _ o ho with h | h
+      · exact Or.inr h
+      · exact Or.inl h
+  | fail e hs =>
+    right
+    refine ⟨s, a, i, .fail e hs, hk, hf, rfl, ?_⟩
+    intro o ho
+    simp only [continue_, List.mem_cons] at ho
+    rcases ho with rfl | ho
+    · exact Or.inl rfl
+    · rcases finish_mem _ _ o ho with h | h
+      · exact Or.inr h
+      · exact Or.inl h
+
+theorem step_walk (q : Quirks) (s : Proto) (inp : Inp) :
+    (∀ o ∈ (step q s inp).2, o.simple = true) ∨ FromWalk q s (step q s inp) := by
+  have one : ∀ (st : Proto) (o : Out), o.simple = true → ∀ o' ∈ (st, [o]).2, o'.simple = true := by
+    intro st o h o' ho'; simp at ho'; subst ho'; exact h
+  cases inp with
+  | launch a n par k =>
+    left
+    simp only [step]
+    split
+    · exact one _ _ rfl
+    · cases par with
+      | none => simp only; split <;> exact one _ _ rfl
+      | some pi =>
+        obtain ⟨p, i⟩ := pi
+        simp only
+        have hq := lookup_simple q s p i
+        rcases hl : lookup q s p i with ⟨v, s1, outs⟩
+        rw [hl] at hq
+        cases v with
+        | accept => exact one _ _ rfl
+        | dropped => exact hq
+        | lost => exact hq
+  | event a i k =>
+    simp only [step, viaLookup]
+    have hq := lookup_simple q s a i
+    have hs := lookup_same q s a i
+    have hfr := lookup_fresh q s a i
+    rcases lookup_cases q s a i with h | h | ⟨x, _, _, h⟩ | ⟨x, _, _, h⟩
+    · rw [h.1] at hq ⊢; exact Or.inl hq
+    · rw [h] at hq ⊢; exact Or.inl hq
+    · rw [h] at hq ⊢; exact Or.inl hq
+    · rw [h]
+      exact continue_walk q s _ a i k (seenAtts_keeps s a) rfl
+  | deferred a i k =>
+    simp only [step, viaLookup]
+    have hq := lookup_simple q s a i
+    rcases lookup_cases q s a i with h | h | ⟨x, _, _, h⟩ | ⟨x, _, _, h⟩
+    · rw [h.1] at hq ⊢; exact Or.inl hq
+    · rw [h] at hq ⊢; exact Or.inl hq
+    · rw [h] at hq ⊢; exact Or.inl hq
+    · rw [h]
+      exact continue_walk q s _ a i k (seenAtts_keeps s a) rfl
+  | reply a i k =>
+    simp only [step]
+    cases hf : find s.atts a with
+    | none => exact Or.inl (one _ _ rfl)
+    | some x =>
+      simp only
+      cases hs : x.slots[i]? with
+      | none => exact Or.inl (one _ _ rfl)
+      | some sl =>
+        simp only
+        split
+        · split
+          · right
+            refine ⟨{ s with atts := upd s.atts a (setSlot i Slot.disarm) }, a, i, .fail .taskTerminated [],
+              upd_keeps _ _ _ (setSlot_keeps _ _), rfl, rfl, ?_⟩
+            intro o ho
+            rcases finish_mem _ _ o ho with h | h
+            · exact Or.inr h
+            · exact Or.inl h
+          · exact continue_walk q s _ a i k (upd_keeps _ _ _ (setSlot_keeps _ _)) rfl
+        · exact Or.inl (one _ _ rfl)
+  | echo a i =>
+    simp only [step]
+    cases hf : find s.atts a with
+    | none => exact Or.inl (one _ _ rfl)
+    | some x =>
+      simp only
+      split
+      · right
+        refine ⟨s, a, i, .fail .taskTerminated [], KeepsAll.rfl' _, rfl, rfl, ?_⟩
+        intro o ho
+        rcases finish_mem _ _ o ho with h | h
+        · exact Or.inr h
+        · exact Or.inl h
+      · exact Or.inl (one _ _ rfl)
+  | topEnd ok =>
+    left
+    simp only [step]
+    split
+    · exact one _ _ rfl
+    · split
+      · intro o ho
+        simp only [List.mem_cons] at ho
+        rcases ho with rfl | ho
+        · rfl
+        · exact cp_simple _ o ho
+      · exact one _ _ rfl
+  | backstop =>
+    left
+    simp only [step]
+    split
+    · intro o ho; simp at ho
+    · split
+      · exact one _ _ rfl
+      · intro o ho
+        simp only [List.mem_cons] at ho
+        rcases ho with rfl | ho
+        · rfl
+        · exact cp_simple _ o ho
+
+
+theorem live_back {l l' : List Attempt} (h : KeepsAll l l') (a : Nat) :
+    (∃ x' ∈ l', x'.id = a ∧ x'.terminated = false) → ∃ x ∈ l, x.id = a ∧ x.terminated = false := by
+  rintro ⟨x', hx', hid, ht⟩
+  obtain ⟨x, hx, hk⟩ := All2.mem_right h x' hx'
+  refine ⟨x, hx, hk.1 ▸ hid, ?_⟩
+  cases hxt : x.terminated
+  · rfl
+  · rw [hk.2.2.1 hxt] at ht; cases ht
+
+theorem dead_no_live (s : Proto) (a : Nat) (hd : Dead s a) : ¬ ∃ x ∈ s.atts, x.id = a ∧ x.terminated = false := by
+  rintro ⟨x, hx, hid, ht⟩
+  rw [hd.2 x hx hid] at ht
+  cases ht
+
+/-- a dead attempt's join never hands over, whatever the switches -/
+theorem step_no_succeed_dead (q : Quirks) (s : Proto) (inp : Inp) (a : Nat) (vs : List Nat) (hd : Dead s a) :
+    Out.succeed a vs ∉ (step q s inp).2 := by
+  intro ho
+  rcases step_walk q s inp with h | ⟨s1, b, i, r, hk, _, _, hw⟩
+  · have := h _ ho; cases this
+  · rcases hw _ ho with h | h
+    · cases h
+    · have := bub_outOK q _ _ _ _ _ _ h
+      simp only [OutOK] at this
+      exact dead_no_live s a hd (live_back hk a this)
+
+/-- the repaired protocol never fails a dead attempt again -/
+theorem step_no_fail_dead (q : Quirks) (hq : q.refail = false) (s : Proto) (inp : Inp) (a : Nat) (e : Err) (hd : Dead s a) :
+    Out.failAttempt a e ∉ (step q s inp).2 := by
+  intro ho
+  rcases step_walk q s inp with h | ⟨s1, b, i, r, hk, _, _, hw⟩
+  · have := h _ ho; cases this
+  · rcases hw _ ho with h | h
+    · cases h
+    · have := bub_outOK q _ _ _ _ _ _ h
+      simp only [OutOK] at this
+      exact dead_no_live s a hd (live_back hk a (this hq))
+
+theorem step_no_abort_dead (q : Quirks) (s : Proto) (inp : Inp) (a : Nat) (hd : Dead s a) :
+    Out.aborted a ∉ (step q s inp).2 := by
+  intro ho
+  rcases step_walk q s inp with h | ⟨s1, b, i, r, hk, _, _, hw⟩
+  · have := h _ ho; cases this
+  · rcases hw _ ho with h | h
+    · cases h
+    · have := bub_outOK q _ _ _ _ _ _ h
+      simp only [OutOK] at this
+      exact dead_no_live s a hd (live_back hk a this)
+
+theorem unique_of_sorted : ∀ (l : List Attempt), (l.map (·.id)).Pairwise (· > ·) → ∀ x ∈ l, ∀ y ∈ l, x.id = y.id → x = y
+  | [], _, x, hx, _, _, _ => by cases hx
+  | z :: l, h, x, hx, y, hy, hxy => by
+    rw [List.map_cons, List.pairwise_cons] at h
+    rcases List.mem_cons.mp hx with hxz | hxl
+    · rcases List.mem_cons.mp hy with hyz | hyl
+      · rw [hxz, hyz]
+      · have := h.1 y.id (List.mem_map.mpr ⟨y, hyl, rfl⟩)
+        rw [hxz] at hxy
+        omega
+    · rcases List.mem_cons.mp hy with hyz | hyl
+      · have := h.1 x.id (List.mem_map.mpr ⟨x, hxl, rfl⟩)
+        rw [hyz] at hxy
+        omega
+      · exact unique_of_sorted l h.2 x hxl y hyl hxy
+
+theorem finish_atts (s : Proto) (w : Walk) : (finish s w).1.atts = [] ∨ KeepsAll w.atts (finish s w).1.atts := by
+  unfold finish
+  simp only
+  split
+  · exact cp_keeps _
+  · exact Or.inr (KeepsAll.rfl' _)
+
+/-- the step in which an attempt fails (or is torn down) leaves it dead -/
+theorem step_fail_dead (q : Quirks) (s : Proto) (inp : Inp) (a : Nat) (hw : WF s)
+    (ho : (∃ e, Out.failAttempt a e ∈ (step q s inp).2) ∨ Out.aborted a ∈ (step q s inp).2) :
+    Dead (step q s inp).1 a := by
+  have key : ∀ o ∈ (step q s inp).2, (match o with | .failAttempt b _ => b = a | .aborted b => b = a | _ => False) →
+      Dead (step q s inp).1 a := by
+    intro o ho hm
+    rcases step_walk q s inp with h | ⟨s1, b, i, r, hk, hfr, hres, hwk⟩
+    · have := h _ ho
+      cases o <;> simp_all [Out.simple]
+    · have hin : o ∈ (bubble q s1.ended.isSome s1.atts b i r).outs := by
+        rcases hwk _ ho with h | h
+        · cases o <;> simp_all [Out.simple]
+        · exact h
+      have haft := bub_afterOK q _ _ _ _ _ _ hin
+      have hx : ∃ x' ∈ (bubble q s1.ended.isSome s1.atts b i r).atts, x'.id = a ∧ x'.terminated = true := by
+        cases o <;> simp_all [AfterOK]
+      obtain ⟨x', hx', hid, ht⟩ := hx
+      have hk2 : KeepsAll s.atts (bubble q s1.ended.isSome s1.atts b i r).atts := hk.trans' (bub_keeps _ _ _ _ _ _)
+      have hsorted : ((bubble q s1.ended.isSome s1.atts b i r).atts.map (·.id)).Pairwise (· > ·) := by
+        rw [All2.ids hk2]; exact hw.1
+      have hall : ∀ y ∈ (bubble q s1.ended.isSome s1.atts b i r).atts, y.id = a → y.terminated = true := by
+        intro y hy hya
+        have := unique_of_sorted _ hsorted y hy x' hx' (hya.trans hid.symm)
+        rw [this]; exact ht
+      have halt : a < s.fresh := by
+        have := below_keepsAll hk2 _ hw.2 x' hx'
+        omega
+      rw [hres]
+      refine ⟨by rw [finish_fresh, hfr]; exact halt, ?_⟩
+      rcases finish_atts s1 (bubble q s1.ended.isSome s1.atts b i r) with h | h
+      · rw [h]; intro y hy; cases hy
+      · exact dead_keepsAll h a hall
+  rcases ho with ⟨e, ho⟩ | ho
+  · exact key _ ho rfl
+  · exact key _ ho rfl
+
+theorem run_dead_no_succeed (q : Quirks) (s : Proto) (is : List Inp) (a : Nat) (vs : List Nat) (hd : Dead s a) :
+    Out.succeed a vs ∉ (run q s is).2 := by
+  induction is generalizing s with
+  | nil => simp [run]
+  | cons i is ih =>
+    simp only [run, List.mem_append, not_or]
+    exact ⟨step_no_succeed_dead q s i a vs hd, ih _ (dead_evolves (step_evolves q s i) a hd)⟩
+
+theorem run_dead_no_fail (q : Quirks) (hq : q.refail = false) (s : Proto) (is : List Inp) (a : Nat) (e : Err) (hd : Dead s a) :
+    Out.failAttempt a e ∉ (run q s is).2 ∧ Out.aborted a ∉ (run q s is).2 := by
+  induction is generalizing s with
+  | nil => simp [run]
+  | cons i is ih =>
+    simp only [run, List.mem_append, not_or]
+    have := ih _ (dead_evolves (step_evolves q s i) a hd)
+    exact ⟨⟨step_no_fail_dead q hq s i a e hd, this.1⟩, ⟨step_no_abort_dead q s i a hd, this.2⟩⟩
+
+theorem run_fail_dead (q : Quirks) (s : Proto) (is : List Inp) (a : Nat) (hw : WF s)
+    (ho : (∃ e, Out.failAttempt a e ∈ (run q s is).2) ∨ Out.aborted a ∈ (run q s is).2) : Dead (run q s is).1 a := by
+  induction is generalizing s with
+  | nil => simp [run] at ho
+  | cons i is ih =>
+    simp only [run] at ho ⊢
+    have hev := step_evolves q s i
+    by_cases hstep : (∃ e, Out.failAttempt a e ∈ (step q s i).2) ∨ Out.aborted a ∈ (step q s i).2
+    · exact run_dead q _ is a (step_fail_dead q s i a hw hstep)
+    · apply ih _ (wf_evolves hev hw)
+      rcases ho with ⟨e, ho⟩ | ho
+      · rcases List.mem_append.mp ho with h | h
+        · exact absurd (Or.inl ⟨e, h⟩) hstep
+        · exact Or.inl ⟨e, h⟩
+      · rcases List.mem_append.mp ho with h | h
+        · exact absurd (Or.inr h) hstep
+        · exact Or.inr h
+
+
 end Asl.FanProto
